@@ -264,7 +264,7 @@ class Ctx:
             else:
                 label = "«%s»" % t if len(same[t]) == 1 else "«%s#%d»" % (t, same[t].index(i))
             self._bind(p, ("param", label), [])
-        for n in ir.walk(fn.body):
+        for n in ir.walk(fn.full_body):
             k = n["k"]
             if k == "slet":
                 if "init" in n:
@@ -294,7 +294,7 @@ class Ctx:
         # closure parents for cparam resolution
         self._closure_parent = {}
         pm = fn.parents()
-        for n in ir.walk(fn.body):
+        for n in ir.walk(fn.full_body):
             if n["k"] == "closure":
                 self._closure_parent[id(n)] = pm.get(id(n))
 
@@ -360,6 +360,15 @@ class Ctx:
             return n["path"]
         if k == "struct":
             return "%s{%s}" % (variant_name(n["path"]), ",".join("%s:%s" % (f["name"], self.term(f["e"], depth + 1)) for f in n["fields"]))
+        if k == "match":
+            live = [a for a in n["arms"] if not diverges(a["body"])]
+            if len(live) == 1:
+                return self.term(live[0]["body"], depth + 1)
+        if k == "if" and "e" in n:
+            if diverges(n["e"]) and not diverges(n["t"]):
+                return self.term(n["t"], depth + 1)
+            if diverges(n["t"]) and not diverges(n["e"]):
+                return self.term(n["e"], depth + 1)
         if k == "closure":
             return "λ@" + n["sp"].rsplit("/", 1)[-1]
         if k == "fnref":
